@@ -824,7 +824,16 @@ pub fn generate_r(stream: &str, seed: u64, n: usize, emit: &mut dyn FnMut(String
 		// decimals only where the file is damaged on purpose (an I/O error met while the bytes of a
 		// decimal are read must stop the reader like any other)
 		sg.decimals = stream == "ocfr-damage";
-		let raw = if big { vec![RawNode { reg: Reg::Bytes, logical: None }] } else { sg.gen_root() };
+		// big files: long byte strings, or - every third one - long arrays (more items than the
+		// limit the reader sets for the *header's* metadata map, which must not apply to the data)
+		let long_arrays = big && produced % 3 == 2;
+		let raw = if long_arrays {
+			vec![RawNode { reg: Reg::Array(1), logical: None }, RawNode { reg: Reg::Int, logical: None }]
+		} else if big {
+			vec![RawNode { reg: Reg::Bytes, logical: None }]
+		} else {
+			sg.gen_root()
+		};
 		let Ok(schema) = build::to_schema_mut(&raw).freeze() else { continue };
 		let codec = match stream {
 			"ocfr-null" | "ocfr-damage" => "null",
@@ -843,6 +852,13 @@ pub fn generate_r(stream: &str, seed: u64, n: usize, emit: &mut dyn FnMut(String
 		let mut config = serde_avro_fast::ser::SerializerConfig::new(&schema);
 		let mut ok = true;
 		for _ in 0..k {
+			if long_arrays {
+				let n = *[999usize, 1000, 1001, 2500].choose(&mut rng).unwrap();
+				let v = SV::Seq(Some(n), (0..n).map(|k| SV::Int(IntTy::I32, crate::proto::BigI::Pos((k % 100) as u128))).collect());
+				datums.push(serde_avro_fast::to_datum_vec(&v, &mut config).unwrap());
+				values.push(v);
+				continue;
+			}
 			if big {
 				let len = *[8191usize, 8192, 8193, 32765, 32768, 32769, 40000, 65536, 65537].choose(&mut rng).unwrap();
 				let payload: Vec<u8> = if rng.gen_bool(0.8) { (0..len).map(|_| rng.gen()).collect() } else { vec![7u8; len] };
@@ -963,6 +979,16 @@ pub fn generate_r(stream: &str, seed: u64, n: usize, emit: &mut dyn FnMut(String
 			}
 			_ => vec![("valid".to_string(), file.clone())],
 		};
+		let mut variants = variants;
+		if stream == "ocfd" {
+			// a transient fault of the source at its k-th refill, of every error kind a socket, a
+			// pipe or a signal produces: reported once, then end of stream - whatever the kind
+			for _ in 0..4 {
+				let kname = *["other", "interrupted", "wouldblock", "timedout", "unexpectedeof", "invaliddata", "brokenpipe"].choose(&mut rng).unwrap();
+				let at = rng.gen_range(0..(file.len() / 3).max(2));
+				variants.push((format!("fault:{kname}:{at}"), file.clone()));
+			}
+		}
 		for (kind, f) in variants {
 			let mut backends = vec![Backend::Slice];
 			for c in [1usize, 2, 3, 7, 64, 8192] {
@@ -1062,6 +1088,73 @@ where
 	outs
 }
 
+/// A `BufRead` that fails ONCE, at its k-th `fill_buf` call, with an error of the given kind, and
+/// works normally before and after (a transient fault of the underlying source).
+pub struct FaultReader<R> {
+	pub inner: R,
+	pub calls: usize,
+	pub at: usize,
+	pub kind: std::io::ErrorKind,
+	pub fired: bool,
+}
+impl<R: std::io::BufRead> std::io::BufRead for FaultReader<R> {
+	fn fill_buf(&mut self) -> std::io::Result<&[u8]> {
+		self.calls += 1;
+		if !self.fired && self.calls > self.at {
+			self.fired = true;
+			return Err(std::io::Error::new(self.kind, "injected fault"));
+		}
+		self.inner.fill_buf()
+	}
+	fn consume(&mut self, n: usize) {
+		self.inner.consume(n)
+	}
+}
+impl<R: std::io::BufRead> std::io::Read for FaultReader<R> {
+	fn read(&mut self, buf: &mut [u8]) -> std::io::Result<usize> {
+		use std::io::BufRead;
+		if buf.is_empty() {
+			return Ok(0);
+		}
+		let b = self.fill_buf()?;
+		let m = b.len().min(buf.len());
+		buf[..m].copy_from_slice(&b[..m]);
+		self.consume(m);
+		Ok(m)
+	}
+}
+
+pub fn parse_fault(kind: &str) -> Option<(usize, std::io::ErrorKind)> {
+	use std::io::ErrorKind as K;
+	let mut it = kind.strip_prefix("fault:")?.split(':');
+	let k = match it.next()? {
+		"other" => K::Other,
+		"interrupted" => K::Interrupted,
+		"wouldblock" => K::WouldBlock,
+		"timedout" => K::TimedOut,
+		"unexpectedeof" => K::UnexpectedEof,
+		"invaliddata" => K::InvalidData,
+		"brokenpipe" => K::BrokenPipe,
+		_ => return None,
+	};
+	Some((it.next()?.parse().ok()?, k))
+}
+
+pub fn run_backend_on_file_fault(b: &Backend, file: &[u8], hint: &Hint, fault: (usize, std::io::ErrorKind)) -> String {
+	use serde_avro_fast::object_container_file_encoding::Reader;
+	match b.clone() {
+		Backend::Slice => run_backend_on_file(b, file, hint),
+		Backend::Reader { last, sched, .. } => {
+			let cr = ChunkReader { data: file.to_vec(), pos: 0, avail: 0, sched: sched.into_iter().collect(), last };
+			let fr = FaultReader { inner: cr, calls: 0, at: fault.0, kind: fault.1, fired: false };
+			match Reader::from_reader(fr) {
+				Err(_) => "init-err header".to_string(),
+				Ok(r) => read_all(r, hint, file.len()).join(" "),
+			}
+		}
+	}
+}
+
 pub fn run_backend_on_file(b: &Backend, file: &[u8], hint: &Hint) -> String {
 	use serde_avro_fast::object_container_file_encoding::{FailedToInitializeReader as F, Reader};
 	let init_err = |e: F| match e {
@@ -1104,11 +1197,15 @@ pub fn run_r(line: &str) -> Result<String, String> {
 	let backends = r.list(|r| read_backend(r))?;
 	let file = r.xb()?;
 	let origs = r.list(|r| r.xb())?;
+	let fault = parse_fault(&kind);
 	let outs: Vec<String> = backends
 		.iter()
 		.map(|b| {
-			std::panic::catch_unwind(std::panic::AssertUnwindSafe(|| run_backend_on_file(b, &file, &hint)))
-				.unwrap_or_else(|_| "panic".into())
+			std::panic::catch_unwind(std::panic::AssertUnwindSafe(|| match fault {
+				Some(f) => run_backend_on_file_fault(b, &file, &hint, f),
+				None => run_backend_on_file(b, &file, &hint),
+			}))
+			.unwrap_or_else(|_| "panic".into())
 		})
 		.collect();
 	if cmd == "ocfd" {
@@ -1178,7 +1275,7 @@ pub fn run_r(line: &str) -> Result<String, String> {
 			if kind == "countlow" && !yields.iter().any(|y| y.starts_with("e")) {
 				return Ok("judged # VIOLATION a block holding more objects than it declares was read without any error (the undeclared objects are silently lost)".into());
 			}
-			if kind == "trunc" || kind == "countlow" {
+			if kind == "trunc" || kind == "countlow" || kind.starts_with("fault:") {
 				let vals: Vec<String> = yields.iter().take_while(|y| y.starts_with("v ")).map(|y| strip(y)).collect();
 				let rest: Vec<&String> = yields.iter().skip(vals.len()).collect();
 				let prefix_ok = vals.len() <= expected.len()
